@@ -8,10 +8,13 @@ from vk.wit import concretize as cz
 PIN = {}
 FUNCTIONS = simh.FUNCTIONS
 META = {
-    'bounds': {'SIMH.machines': '2-3 (speeds 10,10,20)', 'SIMH.observations': '<= 2 (quick) / <= 3 (thorough)', 'SIMH.start': '0..2', 'SIMH.duration': '1..2 (quick) / 1..3',
-               'SIMH.workflow': '<= 2 tasks (quick) / 3 tasks, task duration 0..2 injected as int, edge volumes 0..10',
-               'SIMH.algorithms': ['BatchProcessing(partitions 1-2, min 1)', 'QueueProcessing', 'Dynamic+static stub', 'Greedy+static stub', 'Adversary'],
-               'SIMH.horizon': 'serial bound of C05 (<= ~60 steps)'},
+    'bounds': {'SIMH.machines': '2-4 (speeds 10/20, or 10,20,30,40)', 'SIMH.observations': '2-3', 'SIMH.start': '0..3 (0..7 for the late third observation of the singles profile)',
+               'SIMH.duration': '1..2 (quick) / 1..3 (thorough)',
+               'SIMH.workflow': '1-3 tasks; shapes chain, fork, join, free, triangle and three relabelled variants whose node labels are not in topological order; task duration 0..2 injected as int (or compute demand over machine speed), edge volumes 0..15',
+               'SIMH.algorithms': ['BatchProcessing(partitions 1-3, min 1; one degenerate per-observation split with min 0)', 'QueueProcessing', 'Dynamic+static stub', 'Greedy+static stub',
+                                   'Adversary (any machine index, optionally ignoring precedence)', 'ReserveOnlyBatch (reserves, leaves release to the Scheduler)'],
+               'SIMH.inputs': 'time-like and choice-like inputs are case-split by the solver and each case runs natively; data rates / capacities unbounded symbolic in the sizes harness',
+               'SIMH.horizon': 'serial bound of C05 (<= ~80 steps)'},
     'outside_bounds': ['clusters > 4 machines, > 3 observations, DAGs > 3 tasks in whole-simulation runs', 'SimPy tie-breaks no input can produce (E11)'],
     'stubs': simh.STUBS, 'assumptions': ['feasible configurations (each observation alone fits telescope, ingest limit, cluster, both buffers)'],
 }
